@@ -61,7 +61,9 @@ def random_merge(seqs, rng):
 
 POLL = ["D.poll", "D.pce", "D.pce", "D.park"]
 LATER_D = ["D.poll", "D.pce", "D.pce", "D.park", "D.poll", "D.pce", "D.pce"]
-ACC_ROUNDS = 3  # poll_connection_error calls in one poll of server::Connection::accept (idle connection)
+ACC_ROUNDS = 3  # poll_connection_error calls in one poll of server::Connection::accept and of client::Connection::
+                # poll_close / wait_idle on an idle connection (poll_control, poll_accept_recv, poll_accept_bi); the
+                # harness answers `bad-flow` when the real control flow makes another number of calls
 
 
 class C05(Prop):
@@ -78,7 +80,12 @@ class C05(Prop):
                   "cell set and the driver parked without a pending notification; with check-before-register a five-step schedule "
                   "loses the wake-up (decide); shutdown() starts with the same check without a waker (check_connection_error): in "
                   "every reachable state with the cell set it answers convert(cell), closes exactly closeOf(cell), and with a "
-                  "handled error it decides to report it before sent_closing or the control stream are touched")
+                  "handled error it decides to report it before sent_closing or the control stream are touched; the tail of "
+                  "client poll_close (poll_accept_bi Ready with a stream or with the transport's error, then "
+                  "handle_connection_error(H3_STREAM_CREATION_ERROR)) is a driver step of the model (DOp.bidi) covered by all "
+                  "of the above, and in every reachable state it ends the poll with the error already in the cell if there is "
+                  "one, else the transport's, else 0x0103, closed exactly closeOf(winner); Drop for server::Connection "
+                  "(close(H3_NO_ERROR), unconditional) appends one call and never changes the first close call (reading R-05)")
     level_note = ("trusted: Lean kernel + 3 standard axioms; the model is tied to the code by executing every interleaving (at the "
                   "granularity of the pre-emption hooks) of driver polls with 1..3 raising handles on the real SharedState/"
                   "ConnectionInner of a real server::Connection over the in-memory transport, OS threads parked at the hooks; "
@@ -88,19 +95,52 @@ class C05(Prop):
             "ordered pairs of error kinds + 18900), each followed by later calls on every handle and two more driver polls; all "
             "interleavings of a poll ending in a driver-detected error and of two successive polls with 1..2 handles; all "
             "interleavings of one poll of the real accept() future (3 poll_connection_error rounds, ending in Pending or in a "
-            "transport error) with 1..2 handles; engine `flt5` (tools/props/faults.py): whole connections over SimQuic whose "
+            "transport error) with 1..2 handles; the same for the client's driver, as client::Connection::poll_close called "
+            "directly (mode clo) and as the wait_idle() future (mode idl), ending in Pending, in a transport error (raised by "
+            "poll_accept_bi, H3_STREAM_CREATION_ERROR raised behind it) or in a server-initiated bidirectional stream (the "
+            "error h3 detects itself there), quick tier: 1 handle all, 2 handles a random 35 %; engine `flt5` (tools/props/faults.py): whole connections over SimQuic whose "
             "transport fails at every call of the setup (the `*_raw` error paths used before the connection object exists), at "
             "the own control stream's writes, at poll_accept_recv / poll_accept_bidi / reads, on the grease stream, x every "
             "ConnectionErrorIncoming / StreamErrorIncoming variant, followed by later accept/wait_idle/shutdown calls; the history "
             "is judged by H3.Spec.Faults (one outcome, reported by every later driver call incl. shutdown, close exactly for "
-            "locally detected errors, once, with that code); non-trivial = some error was raised and the line is not "
+            "locally detected errors, once, with that code), plus (faults.drop_cases) the application dropping the driver "
+            "before / between / after the calls that meet the error, every error source x both roles x grease on/off: the "
+            "first close is judged as before, the Drop's close(H3_NO_ERROR) is accepted once behind the drop (R-05); non-trivial = some error was raised and the line is not "
             "bad-op/bad-flow/panic")
     trusted = ["futures_util::task::AtomicWaker and std::sync::OnceLock are linearizable with their documented semantics "
                "(register stores the waker, wake takes and wakes it, get_or_init stores at most once)",
                "the harness scheduler (one OS thread per task, exactly one released at a time) realises the schedule it is given"]
     assumptions = ["an executor polls a task again after its waker has fired (woken=1 is not a lost wake-up)",
-                   "a driver poll calls poll_connection_error at least once before it returns Pending (true of every driver "
-                   "entry point in h3: poll_accept_bi, poll_accept_recv, poll_control, accept, poll_close)"]
+                   "scope of the no-lost-wake-up theorem: polls that answer Pending only after a poll_connection_error call of "
+                   "the same poll has answered Pending (the model's `park` is enabled only in pc `armed`). True of every POLLED "
+                   "driver entry point, because all of them go through the three ConnectionInner methods poll_control, "
+                   "poll_accept_recv, poll_accept_bi, each of which starts with `poll_connection_error(cx)?` (re-read from the "
+                   "source on every run: note `entry points`): server::Connection::accept in its polling phase and the "
+                   "feature-gated poll_accept_request_stream (both = poll_accept_request_stream_internal: server poll_control -> "
+                   "poll_next_control -> inner.poll_control -> inner.poll_accept_recv, then inner.poll_accept_bi), "
+                   "client::Connection::poll_close and wait_idle (inner.poll_control, then inner.poll_accept_bi before Pending); "
+                   "3 calls per poll on an idle connection, executed as the real futures in modes acc / clo / idl (another number "
+                   "of calls is `bad-flow`); h3-webtransport polls the connection through the server's "
+                   "poll_accept_request_stream and inner.poll_accept_recv only",
+                   "NOT true of shutdown (server::Connection::shutdown, client::Connection::shutdown, and the shutdown(0) that "
+                   "accept runs after Ok(None)): ConnectionInner::shutdown looks at the error once, on entry, with "
+                   "check_connection_error — the check of poll_connection_error WITHOUT registering a waker (since ef36900; "
+                   "modelled: Setup.checkError / shutdownPlan; proved: C05_shutdown_reports_error, "
+                   "C05_shutdown_after_error_writes_nothing; checked on whole connections by engine flt5, whose oracle demands the "
+                   "error of every shutdown call made after it was reported) — and afterwards answers Pending only from the "
+                   "transport (stream::write of the GOAWAY frame waiting for write credit on the control stream), in a poll in "
+                   "which the connection's waker was not registered. An error raised while shutdown waits there is reported by "
+                   "the NEXT driver call, not by that shutdown call, and the connection is not closed before; the theorem makes "
+                   "no statement about a driver parked inside shutdown's write (real code: `conn server g0,ev=1 o2 s2:000400 o0 "
+                   "s0:0100 conn.A cw3:0 conn.S:0 s0:0d00 q0.res` => q0.res=err:conn:local:QPACK_DECOMPRESSION_FAILED, "
+                   "closed=[], pending=[conn.S]; with `gw3:100 conn.A` appended: conn.S=ok, then close:512 and the error)",
+                   "the builder (ConnectionInner::new, send_control_stream_headers) runs before a request handle exists; its "
+                   "error paths are flt5's",
+                   "reading R-05: `closed with exactly that error's code` is judged on the FIRST close call (the one that closes "
+                   "the QUIC connection), strictly; the close(H3_NO_ERROR) that Drop for server::Connection adds when the "
+                   "application drops the driver is accepted once, only behind `<task>.D=ok` (engine flt5, "
+                   "faults.drop_cases); a close made by nobody but the driver is demanded only once a driver call has met the "
+                   "error"]
 
     # ---------------------------------------------------------------- cases
 
@@ -183,6 +223,21 @@ class C05(Prop):
                     ks = [rng.choice(KINDS) for _ in range(n)]
                     L.append(self.line("acc", errs_for(ks, second=False),
                                        [d if x == "D.det:Q" else x for x in il] + acc + ["D.park"]))
+        # the client's driver in real-future mode: `clo` = client::Connection::poll_close called directly, `idl` = the
+        # wait_idle() future; the same 3 rounds, then the transport's poll_accept_bidi answers Pending (D.park), fails
+        # (D.det:<quic error>; poll_accept_bi raises it, then poll_close raises H3_STREAM_CREATION_ERROR behind it) or
+        # hands out a server-initiated bidirectional stream (D.det:I259.0: the error h3 detects itself at this point)
+        for mode in ("clo", "idl"):
+            for n in (1, 2):
+                for end in ("D.park", "D.det:Q", "D.det:B"):
+                    for il in interleavings([acc + [end]] + [["S%d" % (k + 1)] * 2 for k in range(n)]):
+                        if n == 2 and not big and rng.random() < 0.65:
+                            continue
+                        tag[0] += 1
+                        d = "D.det:" + mk_err(rng.choice(["Qi", "Qa", "Qt", "Qu"]), rng, tag[0] % 97)
+                        ks = [rng.choice(KINDS) for _ in range(n)]
+                        sub = {"D.det:Q": d, "D.det:B": "D.det:I259.0"}
+                        L.append(self.line(mode, errs_for(ks, second=False), [sub.get(x, x) for x in il] + acc + ["D.park"]))
         # random longer histories: several polls, detections, up to 3 handles raising up to 3 errors
         for _ in range(20000 if big else 3000):
             n = rng.randrange(1, 4)
@@ -216,6 +271,8 @@ class C05(Prop):
         # whole connections whose transport fails (setup, control stream writes, accept, reads, grease stream)
         from props import faults
         L += ["flt5 " + l[len("flt "):] for l in faults.cases(big, rng)]
+        # ... and the application dropping the driver before / between / after the calls that meet the error (R-05)
+        L += ["flt5 " + l[len("flt "):] for l in faults.drop_cases(big, rng)]
         return L
 
     def project_all(self, lines, impls):
@@ -322,8 +379,122 @@ class C05(Prop):
                                     % (rel, pat), {}))
         if n_impl < 4:
             res.append(("broken", "source inventory: found only %d CloseStream implementors (parser out of date?)" % n_impl, {}))
+        res += self.entry_points()
         res.append(("note", "source inventory: %d CloseStream implementors, all with the default methods; error cell and "
                     "connection waker are used only in shared_state.rs and connection_error_creators.rs" % n_impl, {}))
+        return res
+
+
+    # ---------------------------------------------------------------- driver entry points
+
+    @staticmethod
+    def fn_body(code, name):
+        """text of the body of `fn <name>` (first definition), None if there is none"""
+        m = re.search(r"\bfn\s+%s\b" % re.escape(name), code)
+        if not m:
+            return None
+        i = code.index("{", m.end())
+        depth, j = 0, i
+        while j < len(code):
+            if code[j] == "{":
+                depth += 1
+            elif code[j] == "}":
+                depth -= 1
+                if depth == 0:
+                    return code[i + 1:j]
+            j += 1
+        return None
+
+    @staticmethod
+    def statements(body):
+        """the body without comments, attributes and the verification hook calls, white space collapsed"""
+        out = []
+        for ln in body.split("\n"):
+            t = ln.split("//")[0].strip()
+            if not t or t.startswith("#[") or "verif_hooks::point" in t:
+                continue
+            out.append(t)
+        return re.sub(r"\s+", " ", " ".join(out))
+
+    def entry_points(self):
+        """The assumption `a poll answers Pending only after poll_connection_error answered Pending in it` is a statement
+        about the source; what can be read off syntactically is re-read on every run: (a) the three ConnectionInner methods
+        every polled entry point goes through start with `poll_connection_error(cx)?`, `shutdown` starts with
+        `check_connection_error()?`; (b) the polled / async methods of server::Connection and client::Connection are the ones
+        listed in the assumption text and reach the transport only through (a); (c) nobody else calls the two checks."""
+        res = []
+
+        def src(rel):
+            return open(os.path.join(vlib.REPO, rel)).read()
+
+        def need(rel, code, fn, pattern, what):
+            body = self.fn_body(code, fn)
+            st = self.statements(body) if body is not None else None
+            if st is None or not re.match(pattern, st):
+                res.append(("broken", "entry points: %s `%s` %s (found: %s)" % (rel, fn, what, (st or "no such fn")[:90]), {}))
+
+        rel = "h3/src/connection.rs"
+        inner = src(rel)
+        first = r"^let _ = self\.poll_connection_error\(cx\)\?;"
+        for fn in ("poll_accept_bi", "poll_accept_recv", "poll_control"):
+            need(rel, inner, fn, first, "does not start with poll_connection_error(cx)?")
+        need(rel, inner, "shutdown", r"^self\.check_connection_error\(\)\?;", "does not start with check_connection_error()?")
+        # the transport's accept calls are made by these methods only
+        for pat, owner in ((r"\.conn\s*\.\s*poll_accept_bidi\(", "poll_accept_bi"), (r"\.conn\s*\.\s*poll_accept_recv\(", "poll_accept_recv")):
+            if len(re.findall(pat, inner)) != 1 or len(re.findall(pat, self.fn_body(inner, owner) or "")) != 1:
+                res.append(("broken", "entry points: %s calls the transport's accept (%s) outside `%s`" % (rel, pat, owner), {}))
+        rel_s, rel_c = "h3/src/server/connection.rs", "h3/src/client/connection.rs"
+        server, client = src(rel_s), src(rel_c)
+        need(rel_s, server, "poll_accept_request_stream_internal",
+             r"^let _ = self\.poll_control\(cx\)\?; let _ = self\.poll_requests_completion\(cx\); loop \{ let conn = "
+             r"self\.inner\.poll_accept_bi\(cx\)\?;", "does not run poll_control, then inner.poll_accept_bi")
+        need(rel_s, server, "poll_control", r"^while \(self\.poll_next_control\(cx\)\?\)\.is_ready\(\) \{\} Poll::Pending$",
+             "is not the loop over poll_next_control")
+        need(rel_s, server, "poll_next_control", r"^let frame = ready!\(self\.inner\.poll_control\(cx\)\)\?;",
+             "does not start with inner.poll_control")
+        need(rel_s, server, "accept", r"^let stream = match poll_fn\(\|cx\| self\.poll_accept_request_stream_internal\(cx\)\)"
+             r"\.await\? \{ Some\(s\) => .*? None => \{ self\.shutdown\(0\)\.await\?; return Ok\(None\); \} \};",
+             "is not poll_accept_request_stream_internal, then shutdown(0) on None")
+        need(rel_s, server, "shutdown", r".*self\.inner\.shutdown\(&mut self\.sent_closing, max_id\)\.await$",
+             "does not end in inner.shutdown")
+        need(rel_c, client, "poll_close", r"^while let Poll::Ready\(result\) = self\.inner\.poll_control\(cx\) \{.*\} "
+             r"if self\.inner\.poll_accept_bi\(cx\)\.is_ready\(\) \{ return Poll::Ready\( self\.inner "
+             r"\.handle_connection_error\(.*\); \} Poll::Pending$", "is not the poll_control loop, then inner.poll_accept_bi, then Pending")
+        need(rel_c, client, "wait_idle", r"^future::poll_fn\(\|cx\| self\.poll_close\(cx\)\)\.await$", "is not poll_fn(poll_close)")
+        need(rel_c, client, "shutdown", r".*self\.inner\.shutdown\(&mut self\.sent_closing, PushId\(0\)\)\.await$",
+             "does not end in inner.shutdown")
+        # every other `Poll::Pending` of the client's poll_close would be a way to park without the check
+        body = self.fn_body(client, "poll_close") or ""
+        if self.statements(body).count("Poll::Pending") != 1:
+            res.append(("broken", "entry points: client poll_close has more than one way to answer Pending", {}))
+        # the polled / async methods of the two driver types are the ones the assumption lists
+        want = {rel_s: {"new", "accept", "shutdown", "poll_accept_request_stream", "poll_accept_request_stream_internal",
+                        "poll_control", "poll_next_control", "poll_requests_completion"},
+                rel_c: {"send_request", "shutdown", "wait_idle", "poll_close"}}
+        for r_, code in ((rel_s, server), (rel_c, client)):
+            code = "\n".join(ln.split("//")[0] for ln in code.split("\n"))
+            got = set(re.findall(r"\basync\s+fn\s+(\w+)", code))
+            got |= set(m.group(1) for m in re.finditer(r"\bfn\s+(\w+)\s*\([^)]*\bcx\s*:", code))
+            if got != want[r_]:
+                res.append(("broken", "entry points: polled/async methods of %s are %s, the assumption text lists %s"
+                            % (r_, sorted(got), sorted(want[r_])), {}))
+        # who calls the two checks
+        callers = {}
+        for d, _, fs in os.walk(os.path.join(vlib.REPO, "h3", "src")):
+            for f in fs:
+                if f.endswith(".rs"):
+                    code = open(os.path.join(d, f)).read()
+                    for name in ("poll_connection_error", "check_connection_error"):
+                        n = len(re.findall(r"\.%s\(" % name, code))
+                        if n:
+                            callers.setdefault(name, {})[os.path.relpath(os.path.join(d, f), vlib.REPO)] = n
+        if callers != {"poll_connection_error": {"h3/src/connection.rs": 3}, "check_connection_error": {"h3/src/connection.rs": 1}}:
+            res.append(("broken", "entry points: callers of the error checks changed: %s" % callers, {}))
+        if not any(k == "broken" and m.startswith("entry points") for k, m, _ in res):
+            res.append(("note", "entry points: poll_accept_bi / poll_accept_recv / poll_control start with poll_connection_error(cx)? "
+                        "and are its only callers; shutdown starts with check_connection_error()? (its only caller) and has no "
+                        "poll_connection_error; server accept / poll_accept_request_stream and client poll_close / wait_idle reach "
+                        "the transport only through them; no other polled method on the two driver types", {}))
         return res
 
 
